@@ -1181,7 +1181,12 @@ class Interp:
         t = s.target
         if isinstance(t, ast.Name):
             cur = env.lookup(t.id)
-            env.assign(t.id, self.augop(type(s.op), cur, self.eval(s.value, env)))
+            val = self.eval(s.value, env)
+            if isinstance(cur, np.ndarray) and cur.dtype != object and isinstance(val, np.ndarray) and val.dtype == object:
+                # `arr += <array holding symbolic values>` on a NUMERIC local array (e.g. np.zeros(..., dtype=complex)): numpy cannot store the symbols in place; the array
+                # is replaced by an object-dtype copy in every local that holds it (same rule and same aliasing check as for an indexed store), then updated in place
+                cur = self._promote_local_array(ast.Subscript(value=t, slice=None), cur, val, env)
+            env.assign(t.id, self.augop(type(s.op), cur, val))
         elif isinstance(t, ast.Attribute):
             obj = self.eval(t.value, env)
             cur = self.getattr(obj, t.attr)
@@ -1200,7 +1205,7 @@ class Interp:
         """a symbolic value is stored into a NUMERIC numpy array held by a local variable (e.g. `rdm = np.zeros(..., dtype=complex)`): the array is replaced by an
         object-dtype copy in every variable of the enclosing interpreted frames that holds it. Sound only if nothing else references the array: every other referrer
         (checked through the garbage collector) makes the construct unsupported."""
-        if not (isinstance(obj, np.ndarray) and obj.dtype != object and has_sym(v) and isinstance(t.value, ast.Name)):
+        if not (isinstance(obj, np.ndarray) and obj.dtype != object and (has_sym(v) or (isinstance(v, np.ndarray) and v.dtype == object)) and isinstance(t.value, ast.Name)):
             return obj
         import gc
         new = obj.astype(object)
